@@ -550,6 +550,26 @@ func (f *Frame) lanes1(v ssa.Value, w int) Vec {
 			}
 		}
 		f.A.why("%s: result of a call that is not modelled", f.A.Expr(x))
+	case *ssa.Extract:
+		if cf, rets, ok := f.tupleReturns(x); ok {
+			var out Vec
+			for _, ret := range rets {
+				a := cf.Lanes(ret.Results[x.Index])
+				if len(a) != w {
+					a = a.Resize(w, false)
+				}
+				if out == nil {
+					out = append(Vec(nil), a...)
+				} else if !out.Equal(a) {
+					f.A.why("%s: helper returns values with different lanes", f.A.Expr(x))
+					return TopVec(w)
+				}
+			}
+			if out != nil {
+				return out
+			}
+		}
+		f.A.why("%s: result #%d of a call that is not modelled", f.A.Expr(x.Tuple), x.Index)
 	default:
 		f.A.why("%s: %T is not modelled", f.A.Expr(v), v)
 	}
@@ -632,4 +652,123 @@ func binaryAppend(cc *ssa.CallCommon) (byteOrder, int, bool) {
 		return o, 64, true
 	}
 	return 0, 0, false
+}
+
+// tupleReturns: ex is result #i of a call of an in-module helper that returns
+// several values. The returns of the helper whose value #i the caller can
+// observe: all of them, except — when the helper's last result is an error and
+// every use of ex sits under the caller's `err == nil` edge — the returns that
+// carry a certainly non-nil error (fmt.Errorf, errors.New, a concrete error
+// value).
+func (f *Frame) tupleReturns(ex *ssa.Extract) (*Frame, []*ssa.Return, bool) {
+	call, ok := ex.Tuple.(*ssa.Call)
+	if !ok {
+		return nil, nil, false
+	}
+	callee := call.Common().StaticCallee()
+	if callee == nil || !f.A.inlinable(callee) || f.depth >= 2 {
+		return nil, nil, false
+	}
+	res := callee.Signature.Results()
+	n := res.Len()
+	if ex.Index >= n {
+		return nil, nil, false
+	}
+	lastIsErr := n >= 2 && ex.Index != n-1 && types.Identical(res.At(n-1).Type(), types.Universe.Lookup("error").Type())
+	skipFail := lastIsErr && usesUnderSuccess(ex, call, n-1)
+	var rets []*ssa.Return
+	for _, b := range callee.Blocks {
+		ret, ok := b.Instrs[len(b.Instrs)-1].(*ssa.Return)
+		if !ok || len(ret.Results) != n {
+			continue
+		}
+		if skipFail && certainlyError(ret.Results[n-1]) {
+			continue
+		}
+		rets = append(rets, ret)
+	}
+	if len(rets) == 0 {
+		return nil, nil, false
+	}
+	return f.child(callee, call), rets, true
+}
+
+func certainlyError(v ssa.Value) bool {
+	switch y := v.(type) {
+	case *ssa.MakeInterface:
+		return true
+	case *ssa.Call:
+		if fn := y.Common().StaticCallee(); fn != nil && fn.Pkg != nil {
+			switch fn.Pkg.Pkg.Path() + "." + fn.Name() {
+			case "fmt.Errorf", "errors.New":
+				return true
+			}
+		}
+	}
+	return false
+}
+
+// usesUnderSuccess: every use of ex lies in a block dominated by the successor
+// taken when result #ei of the same call compares equal to nil.
+func usesUnderSuccess(ex *ssa.Extract, call *ssa.Call, ei int) bool {
+	if call.Referrers() == nil || ex.Referrers() == nil {
+		return false
+	}
+	var succ []*ssa.BasicBlock
+	for _, r := range *call.Referrers() {
+		ee, ok := r.(*ssa.Extract)
+		if !ok || ee.Index != ei || ee.Referrers() == nil {
+			continue
+		}
+		for _, u := range *ee.Referrers() {
+			bo, ok := u.(*ssa.BinOp)
+			if !ok || (bo.Op != token.EQL && bo.Op != token.NEQ) || bo.Referrers() == nil {
+				continue
+			}
+			other := bo.Y
+			if other == ssa.Value(ee) {
+				other = bo.X
+			}
+			if k, isK := other.(*ssa.Const); !isK || k.Value != nil {
+				continue
+			}
+			for _, iu := range *bo.Referrers() {
+				iff, ok := iu.(*ssa.If)
+				if !ok {
+					continue
+				}
+				d := iff.Block()
+				if len(d.Succs) != 2 || d.Succs[0] == d.Succs[1] {
+					continue
+				}
+				s := d.Succs[0]
+				if bo.Op == token.NEQ {
+					s = d.Succs[1]
+				}
+				if len(s.Preds) == 1 {
+					succ = append(succ, s)
+				}
+			}
+		}
+	}
+	if len(succ) == 0 {
+		return false
+	}
+	n := 0
+	for _, r := range *ex.Referrers() {
+		if _, isD := r.(*ssa.DebugRef); isD {
+			continue
+		}
+		under := false
+		for _, s := range succ {
+			if s.Dominates(r.Block()) {
+				under = true
+			}
+		}
+		if !under {
+			return false
+		}
+		n++
+	}
+	return n > 0
 }
